@@ -73,6 +73,10 @@ class Tokenizer:
             return True
         return False
 
+    def _syntax_error(self, message: str, tok: TokenInfo) -> SyntaxError:
+        args = (self._path or "<unknown>", tok.start[0], tok.start[1] + 1, tok.line, tok.end[0], tok.end[1] + 1)
+        return SyntaxError(message, args)
+
     def consume_macro_params(self) -> TokenInfo:  # noqa: C901, PLR0912
         # loop until we get , or ) without consuming it
         start: tuple[int, int] | None = None
@@ -83,6 +87,8 @@ class Tokenizer:
         line = ""
         while True:
             tok = next(self._tokengen)
+            if tok.type == Token.ENDMARKER:
+                raise self._syntax_error("unexpected EOF while scanning macro arguments", tok)
             if tok.type == Token.OP and tok.string[-1] in "([{":  # push paren level
                 paren_level.append(tok.string[-1])
             if paren_level:
@@ -127,6 +133,8 @@ class Tokenizer:
         for idx, tok in enumerate(self._tokengen):
             if (idx == 0) and tok.type == Token.NEWLINE:
                 continue
+            elif tok.type == Token.ENDMARKER:
+                raise self._syntax_error("unexpected EOF while scanning with-macro block", tok)
             elif tok.type == Token.INDENT:
                 if (not is_indented) and (idx == 1):
                     is_indented = True
